@@ -58,6 +58,22 @@ type source struct {
 	Src  []byte
 }
 
+type candidate struct{ Name, Src string }
+
+const candHead = "on: push\njobs:\n  test:\n    runs-on: ubuntu-latest\n"
+
+var candidates = []candidate{
+	{"candidate/matrix-row-mapping-keys-differ-in-case", candHead + "    strategy:\n      matrix:\n        os:\n          - {opt: a, Opt: b}\n    steps:\n      - run: echo\n"},
+	{"candidate/matrix-include-mapping-keys-differ-in-case", candHead + "    strategy:\n      matrix:\n        os: [a]\n        include:\n          - cfg: {k: v, K: w}\n    steps:\n      - run: echo\n"},
+	{"candidate/matrix-exclude-nested-keys-differ-in-case", candHead + "    strategy:\n      matrix:\n        os: [{deep: {x: a}}]\n        exclude:\n          - os: {deep: {x: a, X: a}}\n    steps:\n      - run: echo\n"},
+	{"candidate/env-keys-differ-in-case", candHead + "    env:\n      foo: a\n      FOO: b\n    steps:\n      - run: echo\n"},
+	{"candidate/with-keys-differ-in-case", candHead + "    steps:\n      - uses: actions/checkout@v4\n        with:\n          ref: a\n          REF: b\n"},
+	{"candidate/job-ids-differ-in-case", candHead + "    steps:\n      - run: echo\n  TEST:\n    runs-on: ubuntu-latest\n    steps:\n      - run: echo hello\n"},
+	{"candidate/outputs-differ-in-case", candHead + "    outputs:\n      out: a\n      OUT: b\n    steps:\n      - run: echo\n"},
+	{"candidate/services-differ-in-case", candHead + "    services:\n      db:\n        image: a\n      DB:\n        image: b\n    steps:\n      - run: echo\n"},
+	{"candidate/dispatch-inputs-differ-in-case", "on:\n  workflow_dispatch:\n    inputs:\n      name:\n        description: a\n      NAME:\n        description: b\njobs:\n  test:\n    runs-on: ubuntu-latest\n    steps:\n      - run: echo\n"},
+}
+
 func corpus(repo string) []source {
 	var out []source
 	for _, k := range everyKey {
@@ -281,6 +297,22 @@ func main() {
 			emit = func(pi, shi int) bool { return shi < 3 && (*tier == "thorough" || shi == pi%3) }
 		}
 		runSource(s, isEvery, all, emit, "")
+	}
+
+	// candidates: workflows that do NOT lint clean on the pinned tree because two keys of a mapping
+	// differ in letter case only ("key is duplicated").  Should a change make one of them clean, the
+	// property applies to it: every scalar of it is a position as well
+	if *one == "" {
+		ncand := 0
+		for _, c := range candidates {
+			before := nclean
+			runSource(source{c.Name, []byte(c.Src)}, false, all, none, "")
+			if nclean > before {
+				ncand++
+			}
+		}
+		sum.Extra["candidate_workflows"] = len(candidates)
+		sum.Extra["candidate_workflows_clean_on_this_tree"] = ncand
 	}
 
 	// sibling configurations: every-key workflows with one key (and its value)
